@@ -200,6 +200,7 @@ class Oracle:
     def __init__(self, m, R, qmodel):
         self.m, self.R, self.qm = m, R, qmodel
         self._u = {}
+        self._cr = {}
         self.dec_by_k = {0: ""}
         self.k_of = {"": 0}
         for pc, p in m.prefixes.items():
@@ -242,9 +243,29 @@ class Oracle:
         """spelling -> (Val factor to root, dims); delta_ units by their scale."""
         r = self._u.get(name)
         if r is None:
-            pv, _, dm = self.m.root_of_spelling(self.qm.strip_delta(name))
-            r = self._u[name] = (pv, dm)
+            pv, ru, dm = self.m.root_of_spelling(self.qm.strip_delta(name))
+            r = self._u[name] = (pv, dm, ru)
         return r
+
+    def root_units(self, units):
+        """{name: exp} -> surviving root units {root: exp} (what pint calls not `unitless`)."""
+        ru = {}
+        for s, e in units.items():
+            ru = self.R.mmul(ru, self.info(s)[2], fexp(e))
+        return ru
+
+    def compact_reading(self, name):
+        """(prefix, base) that to_compact works on for a unit name: all prefix+unit(+s)
+        readings of the model, the unprefixed twin of a prefixed reading dropped (pint prefers
+        'kilo'+'gram' over ''+'kilogram'); None when more than one reading is left (D12)."""
+        c = self._cr.get(name, 0)
+        if c == 0:
+            rd = list(self.m.readings(name))
+            for p, u in list(rd):
+                if p and ("", p + u) in rd and p + u == name:
+                    rd.remove(("", p + u))
+            c = self._cr[name] = rd[0] if len(rd) == 1 else None
+        return c
 
     def expand(self, units):
         """{name: exp} -> (Val, dims)."""
@@ -252,7 +273,7 @@ class Oracle:
         f, dm = R.ONE, {}
         for s, e in units.items():
             e = fexp(e)
-            pv, rd = self.info(s)
+            pv, rd = self.info(s)[:2]
             f = R.vmul(f, R.vpow(pv, e))
             dm = R.mmul(dm, rd, e)
         return f, dm
@@ -468,9 +489,11 @@ class Monitor:
             name = type(ex).__name__
             floaty = self.reg != "fraction" or not is_exact_mag(x) or \
                 any(not self.o.info(u)[0].exact for u in units)
-            if name in ("OverflowError", "ZeroDivisionError", "Overflow", "InvalidOperation",
-                        "Underflow") and floaty and self.extreme(x, units):
+            if name in ("OverflowError", "ZeroDivisionError", "Overflow", "Underflow") and floaty:
+                # float range of pint's own intermediate factors (e.g. scale**exp deep inside a
+                # definition chain): a limit of float arithmetic, not a statement about the helper
                 rec.count("skipped_float_range")
+                rec.observe("float_range_errors", f"{helper}:{name}:extreme={self.extreme(x, units)}")
                 return False, None
             shape = kw.pop("shape", None) or self.raise_shape(helper, units, name)
             rec.violation("helper-raised", self.witness(x, units, error=name, args=repr(ex.args)[:300]),
@@ -479,7 +502,7 @@ class Monitor:
 
     def raise_shape(self, helper, units, errname):
         if helper in ("to_compact",) and errname == "AssertionError":
-            amb = [u for u in units if len(self.o.m.readings(u)) > 1]
+            amb = [u for u in units if self.o.compact_reading(u) is None]
             if amb:
                 return "unit-name-also-reads-as-prefix+unit-or-plural"
         return self.shape(units)
@@ -641,7 +664,15 @@ class Monitor:
                 self.structure_reduced("to_reduced_units", x, units, runits)
                 self.twin("to_reduced_units", "ito_reduced_units", x, units, r)
         if compact:
-            self.compact(x, [(n, "", n, e) for n, e in units.items()], dec, workload)
+            self.compact(x, self.items_of(units), dec, workload)
+
+    def items_of(self, units):
+        """container -> [(name, prefix, base, exp)] as to_compact will read the names."""
+        out = []
+        for n, e in units.items():
+            cr = self.o.compact_reading(n)
+            out.append((n, cr[0], cr[1], e) if cr else (n, "", n, e))
+        return out
 
     # -- to_compact ---------------------------------------------------------
     def compact(self, x, items, dec, workload):
@@ -659,9 +690,14 @@ class Monitor:
         runits = dict(r._units.items())
         rec.case((workload, self.reg, "to_compact", tuple(units.items()), type(x).__name__, dec),
                  nontrivial=runits != units)
-        special = (not units) or isnan(xn) or isinf(xn) or xn == 0
+        try:
+            rootless = not o.root_units(units)
+        except KeyError:
+            rootless = False
+        special = rootless or isnan(xn) or isinf(xn) or xn == 0
         if special:
-            why = "unitless" if not units else "nan" if isnan(xn) else "inf" if isinf(xn) else "zero"
+            why = ("no-units" if not units else "nan" if isnan(xn) else "inf" if isinf(xn) else
+                   "zero" if xn == 0 else "units-cancel-to-no-root-unit")
             rec.observe("compact_special_kinds", why + ":" + type(x).__name__)
             if same_mag(rm, x) and runits == units and type(r) is type(q):
                 rec.count("compact_special_unchanged")
@@ -673,6 +709,9 @@ class Monitor:
         if not self.value("to_compact", x, units, r):
             return
         # structure: unit by unit
+        if len({b for _, _, b, _ in items}) < len(items):
+            rec.count("skipped_compact_two_inputs_share_a_base")
+            return
         rec.count("compact_structure_checks")
         left = dict(runits)
         changed = []
@@ -731,8 +770,9 @@ class Monitor:
                           **self.fields("to_compact", "more-than-one-unit", x, units, input=inshape))
         dims = o.expand(units)[1]
         if not dims:
-            rec.count("compact_dimensionless_with_units_rescaled" if changed else
-                      "compact_dimensionless_with_units_unchanged")
+            # radian / bit / count based: root units survive, pint rescales (1500 B -> 1.5 kB)
+            rec.count("compact_dimensionless_base_unit_rescaled" if changed else
+                      "compact_dimensionless_base_unit_kept")
         # range
         e_lead = fexp(lead[3])
         if nonlead_prefixed:
@@ -825,6 +865,9 @@ def run_nonmult(rec, rng, o, pint, ureg, regname, system):
     nm = [c for c in m.order if not m.is_multiplicative(c)]
     for c in nm:
         logu = "logbase" in m.units[c]["mods"]
+        if logu and regname != "float":
+            rec.count("skipped_logarithmic_needs_float")     # numpy log of a Fraction: C06's business
+            continue
         for x in (F(25), F(-40), F(3, 2)):
             if regname == "float":
                 x = float(x)
@@ -900,7 +943,7 @@ def run_compact(spec, rec, rng, pintload, pint, o, names):
             kind = kinds[j % len(kinds)]
             x, dec = gen_mag(rng, kind)
             e = 1 if j % 3 else -1
-            mon.compact(x, [(u, "", u, e)], dec, "compact-sweep")
+            mon.compact(x, mon.items_of({u: e}), dec, "compact-sweep")
     # (b) decade boundaries on a few plain units
     for u in ("meter", "second", "gram", "byte", "watt", "radian"):
         for d in range(-33, 34):
@@ -922,7 +965,7 @@ def run_compact(spec, rec, rng, pintload, pint, o, names):
     for i in range(60 if spec["tier"] == "quick" else 600):
         units = ug.compound(nmax=3)
         for s in specials:
-            mon.compact(s, [(n, "", n, e) for n, e in units.items()], 0, "compact-special")
+            mon.compact(s, mon.items_of(units), 0, "compact-special")
         x, dec = gen_mag(rng, rng.choice(kinds))
         mon.compact(x, [], dec, "compact-special")
     # (d) random, including prefixed inputs
@@ -935,11 +978,10 @@ def run_compact(spec, rec, rng, pintload, pint, o, names):
             p = ""
             if (mode < 0.35 and j == 0) or (0.35 <= mode < 0.5 and rng.random() < 0.6):
                 p = o.dec_by_k[rng.choice(allk if rng.random() < 0.2 else k3)]
-            if p and len(o.m.readings(p + n)) != 1:
-                p = ""          # only prefixed spellings that have exactly one reading
-            if p and (p + n) in o.m.spell:
-                p = ""
-            items.append((p + n, p, n, e))
+            if p and (o.compact_reading(n) != ("", n) or o.compact_reading(p + n) != (p, n)
+                      or (p + n) in o.m.spell):
+                p = ""          # only prefixed spellings that have exactly that one reading
+            items.append((p + n, p, n, e) if p else mon.items_of({n: e})[0])
         if rng.random() < 0.5:
             # make the first-power numerator clause frequent
             n0, p0, b0, _ = items[0]
